@@ -71,6 +71,10 @@ extern crate serde_test;
 #[cfg(all(test, feature = "serde_json"))]
 extern crate serde_json;
 
+#[cfg(all(bigdecimal_verif, not(feature = "std")))]
+#[macro_use(thread_local)]
+extern crate std;
+
 #[cfg(feature = "std")]
 include!("./with_std.rs");
 
@@ -154,6 +158,10 @@ pub use rounding::RoundingMode;
 // Mathematical context
 mod context;
 pub use context::Context;
+
+// Seams for deterministic simulation (off unless built with --cfg bigdecimal_verif)
+#[cfg(bigdecimal_verif)]
+pub mod verif_hooks;
 
 use arithmetic::{
     ten_to_the,
